@@ -2,6 +2,7 @@ import RbdlProofs.Lemmas.L17
 import RbdlProofs.Lemmas.L17Body
 import RbdlProofs.Lemmas.L17Asm
 import RbdlProofs.Lemmas.L17Vel
+import RbdlProofs.Lemmas.L17Ang
 import RbdlProofs.Lemmas.L17Ex
 import RbdlProofs.Lemmas.L17Kkt
 import RbdlProofs.Lemmas.L17KktEx
@@ -29,9 +30,12 @@ import RbdlProofs.Lemmas.L17KktEx
       reported `error_norm` is honest, but after a step exit it is the residual at the configuration
       BEFORE the last step.  The point-target overload reports nothing and compares the residual with
       `step_tol` (it has no other tolerance).
-    * `CalcAngularVelocityfromMatrix` returns 0 for a half turn (its third branch is unreachable for
-      finite input), so an orientation constraint that is off by exactly π counts as satisfied:
-      `ikcs_half_turn_counts_as_solved`.
+    * `CalcAngularVelocityfromMatrix` (repaired, D20): for a half turn `2 n nᵀ − 1` it returns `± π n`
+      (`angular_velocity_of_half_turn`), and on symmetric rotations it returns 0 only for the identity
+      (`angular_velocity_zero_only_for_identity`).  Before the repair its second branch also fired for
+      `|l| < tol`, so every half turn was mapped to 0 and an orientation target exactly π away counted as
+      solved with `error_norm = 0` (`old_routine_maps_half_turns_to_zero`, about a local copy of the
+      old routine).
     * `CalcAssemblyQ`: `true` always means that the recomputed position error passed the test.
 -/
 namespace Rbdl.C17
@@ -209,31 +213,72 @@ theorem ikcs_success_can_have_large_residual :
       (inverseKinematicsCS Ex.diagSolve Ex.transc0 Ex.trig0 Ex.m1 Ex.w1 Ex.Q0 Ex.setFar 0 0).2.2.Q = 1 :=
   ⟨Ex.csFar_witness.1, Ex.csFar_witness.2.2.1, Ex.csFar_witness.2.2.2.2⟩
 
-/-- **half turn**: an orientation constraint whose target differs from the body orientation by a
-    rotation of π about z is reported as solved in pass 0 with `error_norm = 0`; the returned
-    configuration is the initial guess, the orientation there is the identity, not the target -/
-theorem ikcs_half_turn_counts_as_solved :
-    (inverseKinematicsCS Ex.diagSolve Ex.transc0 Ex.trig0 Ex.m1 Ex.w1 Ex.Q0 Ex.setTurn 0 0).1 = true ∧
-    (inverseKinematicsCS Ex.diagSolve Ex.transc0 Ex.trig0 Ex.m1 Ex.w1 Ex.Q0 Ex.setTurn 0 0).2.2.errorNorm2 = 0 ∧
-    (calcBodyWorldOrientation Ex.m1 Ex.w1 (mkQS Ex.trig0
-      (inverseKinematicsCS Ex.diagSolve Ex.transc0 Ex.trig0 Ex.m1 Ex.w1 Ex.Q0 Ex.setTurn 0 0).2.2.Q) 1 true).2
-        = M3.one ∧
+/-- **half turn, repaired**: an orientation constraint whose target differs from the body orientation by
+    a rotation of π about z is NOT reported as solved: the recomputed residual at the initial guess is
+    `π²` (here `π := 3`), the first pass reports `error_norm² = 9` and does not return the initial guess
+    as a solution; the orientation there is the identity, not the target -/
+theorem ikcs_half_turn_not_solved :
+    ikcsResidual2 Ex.transc0 Ex.trig0 Ex.m1 Ex.w1 Ex.setTurn Ex.Q0 = 9 ∧
+    (inverseKinematicsCS Ex.diagSolve Ex.transc0 Ex.trig0 Ex.m1 Ex.w1 Ex.Q0
+      { Ex.setTurn with maxSteps := 1 } 0 0).2.2.errorNorm2 = 9 ∧
+    (calcBodyWorldOrientation Ex.m1 Ex.w1 (mkQS Ex.trig0 Ex.Q0) 1 true).2 = M3.one ∧
     (M3.one : M3 Rat) ≠ Ex.halfTurn :=
-  ⟨Ex.csTurn_witness.1, Ex.csTurn_witness.2.2.1, Ex.csTurn_witness.2.2.2.2.1, Ex.csTurn_witness.2.2.2.2.2⟩
+  ⟨Ex.csTurn_facts.2.1, Ex.csTurn_facts.2.2.1, Ex.csTurn_facts.2.2.2.2.1, Ex.csTurn_facts.2.2.2.2.2⟩
 
-/-- the cause, for every choice of the transcendental functions with `sqrt 0 = 0`: the modelled
-    `CalcAngularVelocityfromMatrix` maps the half turn about z to the zero vector -/
-theorem angular_velocity_of_half_turn (T : Transc Rat) (h0 : T.sqrt 0 = 0) :
-    angularVelocityFromMatrix T Ex.halfTurn = V3.zero := by
-  have e : (⟨Ex.halfTurn.m21 - Ex.halfTurn.m12, Ex.halfTurn.m02 - Ex.halfTurn.m20,
-      Ex.halfTurn.m10 - Ex.halfTurn.m01⟩ : V3 Rat).dot
-      ⟨Ex.halfTurn.m21 - Ex.halfTurn.m12, Ex.halfTurn.m02 - Ex.halfTurn.m20,
-      Ex.halfTurn.m10 - Ex.halfTurn.m01⟩ = 0 := by decide +kernel
-  unfold angularVelocityFromMatrix
-  simp only [e, h0]
-  rw [if_neg (by decide +kernel), if_pos (Or.inr (by decide +kernel))]
-example : angularVelocityFromMatrix Ex.transc0 Ex.halfTurn = V3.zero :=
-  angular_velocity_of_half_turn Ex.transc0 rfl
+end ikcs
+
+section angvel
+open Std
+variable {α : Type} [Lean.Grind.Field α] [DecidableEq α] [LE α] [LT α] [DecidableLT α] [DecidableLE α]
+  [LawfulOrderLT α] [IsLinearOrder α] [Lean.Grind.OrderedRing α]
+
+/-- **half turn**: for the rotation by π about a unit axis `n`, `R = 2 n nᵀ − 1`, the modelled (repaired)
+    `CalcAngularVelocityfromMatrix` returns `π n` or `π (−n)` — the same rotation; the code's sign
+    convention makes the component of largest magnitude (the first such) positive — provided `sqrt` is
+    a non-negative root at the arguments it is evaluated at (`0` and the squares of the components) -/
+theorem angular_velocity_of_half_turn (T : Transc α) (n : V3 α) (hn : n.dot n = 1)
+    (h0 : T.sqrt 0 = 0)
+    (hx : 0 ≤ T.sqrt (n.x * n.x) ∧ T.sqrt (n.x * n.x) * T.sqrt (n.x * n.x) = n.x * n.x)
+    (hy : 0 ≤ T.sqrt (n.y * n.y) ∧ T.sqrt (n.y * n.y) * T.sqrt (n.y * n.y) = n.y * n.y)
+    (hz : 0 ≤ T.sqrt (n.z * n.z) ∧ T.sqrt (n.z * n.z) * T.sqrt (n.z * n.z) = n.z * n.z) :
+    angularVelocityFromMatrix T (halfTurnOf n) = T.pi * n ∨
+    angularVelocityFromMatrix T (halfTurnOf n) = T.pi * (-n) :=
+  angVel_halfTurn T n hn h0 hx hy hz
+/-- a coordinate axis … -/
+example := angular_velocity_of_half_turn Ex.transc0 (⟨0, 0, 1⟩ : V3 Rat) (by decide +kernel) rfl
+  (by decide +kernel) (by decide +kernel) (by decide +kernel)
+/-- … and a general axis `(2, 1, −2)/3` -/
+example := angular_velocity_of_half_turn Ex.transc1 Ex.axis221 (by decide +kernel) (by decide +kernel)
+  (by decide +kernel) (by decide +kernel) (by decide +kernel)
+example : angularVelocityFromMatrix Ex.transc1 (halfTurnOf Ex.axis221) = (3 : Rat) * Ex.axis221 := by
+  decide +kernel
+
+/-- **zero only for the identity**: on a symmetric proper rotation (these are the identity and the half
+    turns) the modelled routine returns the zero vector exactly for the identity, provided `sqrt 0 = 0`,
+    `sqrt` is a root at the three arguments `max 0 ((Rᵢᵢ + 1)/2)` of the third branch, and `π ≠ 0` -/
+theorem angular_velocity_zero_only_for_identity (T : Transc α) (R : M3 α) (hR : R.IsRot)
+    (s01 : R.m10 = R.m01) (s02 : R.m20 = R.m02) (s12 : R.m21 = R.m12)
+    (h0 : T.sqrt 0 = 0) (hpi : T.pi ≠ 0)
+    (hroot : ∀ i : Nat, i < 3 →
+      let x := (if 0 < (R.get i i + 1) * (1 / 2) then (R.get i i + 1) * (1 / 2) else 0)
+      T.sqrt x * T.sqrt x = x) :
+    angularVelocityFromMatrix T R = V3.zero ↔ R = M3.one :=
+  angVel_sym_zero_iff T R hR s01 s02 s12 h0 hpi hroot
+example := angular_velocity_zero_only_for_identity Ex.transc0 Ex.halfTurn Ex.halfTurn_isRot rfl rfl rfl rfl
+  (by decide +kernel) (by decide +kernel)
+
+/-- **before the repair** (a local copy of the old routine, `Rbdl.L17.angularVelocityFromMatrixOld`):
+    every symmetric matrix, hence every half turn, was mapped to the zero vector -/
+theorem old_routine_maps_half_turns_to_zero (T : Transc α) (n : V3 α) (h0 : T.sqrt 0 = 0) :
+    angularVelocityFromMatrixOld T (halfTurnOf n) = V3.zero :=
+  angVelOld_symmetric_zero T _ h0 rfl rfl rfl
+example : angularVelocityFromMatrixOld Ex.transc0 Ex.halfTurn = V3.zero := by
+  rw [Ex.halfTurn_eq]; exact old_routine_maps_half_turns_to_zero Ex.transc0 _ rfl
+
+end angvel
+
+section ikcs
+variable {α : Type} [Lean.Grind.Field α] [DecidableEq α] [LT α] [DecidableLT α]
 
 /-- **failure**: `num_steps = max_steps`, all passes fell through, the output is the last iterate -/
 theorem ikcs_failure (solve : Solver α) (T : Transc α) (trig : α → α × α) (m : ModelS α) (w : WS α)
